@@ -163,6 +163,13 @@ Tokenizer_tokenize(Tokenizer *self, PyObject *args)
         }
     }
 
+    // Discard any state left behind by a previous call that was aborted:
+    while (self->topstack) {
+        Tokenizer_delete_top_of_stack(self);
+    }
+    Tokenizer_free_bad_route_tree(self);
+    RESET_ROUTE();
+    self->route_context = 0;
     self->head = self->global = self->depth = 0;
     self->skip_style_tags = skip_style_tags;
     self->bad_routes = NULL;
